@@ -5,12 +5,18 @@ from ..gen import dk, hash_by_name
 
 
 PATHS = {}
+FRESH = [False]  # set per case by the checks: build every structure with its own new strategy object
+
+
+def _hf(ctx, hname):
+    from ..gen import fresh_hash
+    return fresh_hash(hname) if FRESH[0] else hash_by_name(hname)
 
 
 def make_bloom(ctx, kind, est, fpr, hname, tag):
     from probables import BloomFilter, BloomFilterOnDisk, CountingBloomFilter
 
-    hf = hash_by_name(hname)
+    hf = _hf(ctx, hname)
     if kind == "ondisk":
         d = ctx.tmpdir()
         o = BloomFilterOnDisk(os.path.join(d, tag + ".blm"), est, fpr, hash_function=hf)
@@ -54,7 +60,7 @@ def second_handle(ctx, obj, kind, hname):
 
     if kind != "ondisk":
         return None
-    return BloomFilterOnDisk(PATHS[id(obj)], hash_function=hash_by_name(hname))
+    return BloomFilterOnDisk(PATHS[id(obj)], hash_function=_hf(ctx, hname))
 
 
 def operand_variant(ctx, obj, kind, mode, hname, tag):
@@ -63,7 +69,7 @@ def operand_variant(ctx, obj, kind, mode, hname, tag):
     element counter assigned 0.  Returns (operand, kind, [objects to close])"""
     from probables import BloomFilter, BloomFilterOnDisk, CountingBloomFilter
 
-    hf = hash_by_name(hname)
+    hf = _hf(ctx, hname)
     if mode == "reload":
         if kind == "counting":
             return CountingBloomFilter.frombytes(bytes(obj), hash_function=hf), kind, []
@@ -85,7 +91,7 @@ def operand_variant(ctx, obj, kind, mode, hname, tag):
 def make_cms(w, d, hname):
     from probables import CountMinSketch
 
-    return CountMinSketch(width=w, depth=d, hash_function=hash_by_name(hname))
+    return CountMinSketch(width=w, depth=d, hash_function=_hf(None, hname))
 
 
 def resolve(stream, npool):
@@ -147,4 +153,14 @@ def stream_st(allow_remove, n_keys=10, max_len=12):
 
 
 def keys_of(case):
-    return [dk(k) for k in case["pool"]]
+    FRESH[0] = bool(case.get("fresh_hf"))
+    pool = [dk(k) for k in case["pool"]]
+    if "textonly" in (case.get("hash"), case.get("hash2")):
+        # a strategy that accepts text keys only: the pool becomes text (bytes keys by their hex form)
+        out = []
+        for k in pool:
+            k = k if isinstance(k, str) else "x" + bytes(k).hex()
+            if k not in out:
+                out.append(k)
+        pool = out
+    return pool
